@@ -215,8 +215,41 @@ def r18_2(prog, rid="R18.2"):
     return r
 
 
+def r18_3(prog):
+    """An open type member without a tag of its own (`v CLASS.&Type({Set}{@id})` outside AUTOMATIC TAGS has tag -1, like
+    ANY) is found by the BER tag search.  Wherever a BER decoder accepts `any tag whatsoever` for a member because it is
+    flagged ATF_ANY_TYPE, the same condition must admit ATF_OPEN_TYPE: otherwise the library cannot decode its own DER
+    output for such a SEQUENCE."""
+    r = Rule("R18.3", "BER member search admits an untagged open type wherever it admits ANY", floor=1)
+    for f in sorted(prog.funcs.values(), key=lambda f: f.key):
+        n = 0
+        for b in sorted(f.blocks.values(), key=lambda b: (b.term or {}).get("line") or 0):
+            t = b.term
+            if not t or "cond" not in t:
+                continue
+            full = t["cond"].get("full_tree") or t["cond"]["tree"]
+            enums = {x[1] for x in walk(full) if x[0] == "enum"}
+            if "ATF_ANY_TYPE" not in enums:
+                continue
+            if "full_tree" not in t["cond"] or t["cond"]["full_tree"] is t["cond"]["tree"]:
+                # an operand block of a larger `a || b` condition: judge the whole condition it belongs to
+                mine = tree_text(t["cond"]["tree"])
+                for b2 in f.blocks.values():
+                    ft = (b2.term or {}).get("cond", {}).get("full_tree") if b2.term and "cond" in b2.term else None
+                    if ft is not None and mine in tree_text(ft):
+                        enums |= {x[1] for x in walk(ft) if x[0] == "enum"}
+            n += 1
+            key = "any-tag-test#%d" % n
+            if "ATF_OPEN_TYPE" in enums:
+                r.ok(f, key, "the condition admits ATF_OPEN_TYPE as well", t.get("line"))
+            else:
+                r.bad(f, key, "members flagged ATF_ANY_TYPE are accepted with any tag here, untagged open types (tag -1, ATF_OPEN_TYPE) are not: "
+                              "the BER decoder answers `unexpected tag` to the DER the library produced", t.get("line"))
+    return r
+
+
 def run(ctx):
-    return run_config(ctx.prog("S"), "default") + [r18_2(ctx.prog("K"))]
+    return run_config(ctx.prog("S"), "default") + [r18_2(ctx.prog("K")), r18_3(ctx.prog("S"))]
 
 
 def thorough(ctx):
